@@ -176,6 +176,11 @@ def s_content():
         I('empty-with-child', 'content', '<r><em><z/></em></r>'),
         V('ok-anytype', 'content', '<r><an k="1">t<z><y/></z></an></r>'),
         V('ok-nothing', 'content', '<r/>'),
+        # the text equals the fixed value but is padded with white space (pretty-printed documents): every entry
+        # point compares the stripped text of mixed content
+        V('ok-mixed-fixed-padded', 'fixed', '<mf>  abc  </mf>'),
+        V('ok-mixed-fixed-pretty', 'fixed', '<mf>\n    abc\n</mf>\n'),
+        I('mixed-fixed-wrong-pretty', 'fixed', '<mf>\n    abd\n</mf>\n'),
     ]
     return xsd, docs
 
@@ -599,6 +604,42 @@ def s_imported():
     return xsd, docs, {'b.xsd': IMPORTED_B, 'old_b.xsd': IMPORTED_OLD_B}
 
 
+# --- identity constraints scoped to the elements at depth 1 ------------------------------------
+
+def s_scoped():
+    xsd = head() + '''<xs:element name="cat"><xs:complexType><xs:sequence>
+ <xs:element name="s" maxOccurs="unbounded"><xs:complexType><xs:sequence>
+   <xs:element name="e" maxOccurs="unbounded"><xs:complexType><xs:simpleContent><xs:extension base="xs:string">
+    <xs:attribute name="code" type="xs:token" use="required"/></xs:extension></xs:simpleContent></xs:complexType>
+   </xs:element></xs:sequence>
+   <xs:attribute name="name" type="xs:token" use="required"/></xs:complexType>
+  <xs:unique name="code"><xs:selector xpath="e"/><xs:field xpath="@code"/></xs:unique>
+ </xs:element>
+</xs:sequence></xs:complexType>
+<xs:key name="name"><xs:selector xpath="s"/><xs:field xpath="@name"/></xs:key>
+</xs:element>
+''' + TAIL
+
+    def cat(*sections, names=None):
+        out = '<cat>'
+        for k, codes in enumerate(sections):
+            out += '\n <s name="%s">' % (names[k] if names else 's%d' % (k + 1))
+            out += ''.join('\n  <e code="%s">item %s</e>' % (c, c) for c in codes) + '\n </s>'
+        return out + '\n</cat>\n'
+    docs = [
+        V('ok-three-scopes', 'identity', cat('ab', 'ab', 'bc')),
+        V('ok-one-scope', 'identity', cat('abc')),
+        I('duplicate-in-1st-scope', 'identity', cat('aa', 'ab', 'bc')),
+        I('duplicate-in-2nd-scope', 'identity', cat('ab', 'aa', 'bc')),
+        I('duplicate-in-3rd-scope', 'identity', cat('ab', 'ab', 'cxc')),
+        I('duplicate-in-2nd-and-3rd-scope', 'identity', cat('ab', 'bb', 'cc')),
+        I('duplicate-in-4th-scope', 'identity', cat('a', 'b', 'c', 'dd')),
+        I('duplicate-scope-name', 'identity', cat('ab', 'ab', 'bc', names=('s1', 's2', 's1'))),
+        I('duplicate-scope-name-and-code', 'identity', cat('ab', 'cc', names=('s1', 's1'))),
+    ]
+    return xsd, docs
+
+
 # --- documents with exactly k errors --------------------------------------------------------
 
 K_XSD = head() + '''<xs:element name="r"><xs:complexType><xs:sequence>
@@ -624,6 +665,7 @@ _TABLE = (
     ('typesns', BOTH, s_types_ns), ('typeslocal', BOTH, s_types_local), ('subst', BOTH, s_subst),
     ('identity', BOTH, s_identity), ('id', BOTH, s_id), ('assert', ('1.1',), s_assert), ('k', BOTH, s_k),
     ('anyattr', BOTH, s_anyattr), ('inherit', ('1.1',), s_inherit), ('imported', BOTH, s_imported),
+    ('scoped', BOTH, s_scoped),
 )
 
 
